@@ -122,6 +122,12 @@ func c04Run(text string, envMap map[string]string, reps int, w *c04Walk) (what s
 	}
 	orig := modelToDocRaw(twin)
 	// expected env block (sequential fold) and final environment
+	// envMap == nil: the call is made without an environment (Interpolate(nil, ...)), which the
+	// documentation defines as an empty one, private to the call
+	nilEnv := envMap == nil
+	if nilEnv {
+		envMap = map[string]string{}
+	}
 	menv := refmodel.NewEnv(false, envMap)
 	block := &refmodel.PairList[string]{}
 	if twin.Env != nil {
@@ -149,7 +155,12 @@ func c04Run(text string, envMap map[string]string, reps int, w *c04Walk) (what s
 			_, _ = safeYAMLMarshal(p)
 		}
 		renv := refmodel.NewEnv(false, envMap)
-		rerr := p.Interpolate(renv, false)
+		var rerr error
+		if nilEnv {
+			rerr = p.Interpolate(nil, false)
+		} else {
+			rerr = p.Interpolate(renv, false)
+		}
 		if werr != nil {
 			if rerr == nil {
 				return "an expansion fails (" + werr.Error() + ") but Interpolate reported no error", nil, true
@@ -163,7 +174,7 @@ func c04Run(text string, envMap map[string]string, reps int, w *c04Walk) (what s
 		if diff := doc.Equal(want, got, doc.EqOpts{HonourOrderedKeys: true}); diff != "" {
 			return fmt.Sprintf("run %d: pipeline after interpolation differs from single-pass expansion of every string: %s", rep, diff), map[string]any{"run": rep}, false
 		}
-		if fmt.Sprint(renv.M) != fmt.Sprint(menv.M) {
+		if !nilEnv && fmt.Sprint(renv.M) != fmt.Sprint(menv.M) {
 			return "caller environment differs from the model after the call", map[string]any{"got": renv.M, "want": menv.M}, false
 		}
 		// determinism across runs, on the marshalled form too
@@ -205,7 +216,7 @@ func checkC04(c *run.Ctx) {
 	}
 	n := c.N(3000, 30000)
 	reps := c.N(12, 60)
-	c.Parallel("doc", n, func(i int, r *rand.Rand) {
+	body := func(i int, r *rand.Rand, noEnv bool) {
 		refs := c04Refs
 		errCase := i%10 == 9
 		if errCase {
@@ -229,13 +240,21 @@ func checkC04(c *run.Ctx) {
 			return
 		}
 		id := run.CaseID("doc", i)
+		if noEnv {
+			id = run.CaseID("no-env", i)
+		}
 		rs := renderings(d, r, 1, func(style, why string) { c.Count("renderings_discarded_generator_invalid", 1) })
 		rd := rs[len(rs)-1]
 		w := &c04Walk{byField: map[string]int{}}
-		what, extra, errPath := c04Run(rd.Text, c04Env(), reps, w)
+		envMap := c04Env()
+		if noEnv {
+			envMap = nil
+			c.Count("documents_interpolated_without_an_environment", 1)
+		}
+		what, extra, errPath := c04Run(rd.Text, envMap, reps, w)
 		c.Eval(1)
 		if what != "" {
-			m := map[string]any{"what": what, "style": rd.Style, "document": clip(rd.Text, 8000), "env": c04Env()}
+			m := map[string]any{"what": what, "style": rd.Style, "document": clip(rd.Text, 8000), "env": envMap}
 			for k, v := range extra {
 				m[k] = v
 			}
@@ -258,6 +277,61 @@ func checkC04(c *run.Ctx) {
 		if c.WantSample() && d.NCommand > 0 && len(rd.Text) < 2500 {
 			c.Sample(map[string]any{"document": rd.Text, "env": c04Env()})
 		}
+	}
+	c.Parallel("doc", n, func(i int, r *rand.Rand) { body(i, r, false) })
+	// Interpolate(nil, ...): "no environment" is an empty environment private to the call. Run on one goroutine, so
+	// that anything one call leaves behind for the next shows as a difference from the model, not as a crash.
+	c.Phase("no-env", func() {
+		for i := 0; i < c.N(400, 6000); i++ {
+			if c.Only != "" && c.Only != run.CaseID("no-env", i) {
+				continue
+			}
+			body(i, c.RNG("no-env", i), true)
+		}
+	})
+	// Nesting depth: references sit 1 to 120 (600) levels deep inside unknown fields of the pipeline, of a step and
+	// inside a plugin configuration, under sequences and under mappings whose keys carry references too
+	c.Phase("depth", func() {
+		maxDepth := c.N(120, 600)
+		c.Parallel("depth", maxDepth*6, func(i int, r *rand.Rand) {
+			depth, where, seq := 1+i/6, (i%6)/2, i%2 == 0
+			var nested string
+			if seq {
+				nested = strings.Repeat("[", depth) + `"leaf $X $$X ${Y}"` + strings.Repeat("]", depth)
+			} else {
+				var b strings.Builder
+				for k := 0; k < depth; k++ {
+					fmt.Fprintf(&b, `{"k%d_${Y}":`, k)
+				}
+				b.WriteString(`"leaf $X $$X ${Y}"`)
+				b.WriteString(strings.Repeat("}", depth))
+				nested = b.String()
+			}
+			var text string
+			switch where {
+			case 0:
+				text = `{"deep":` + nested + `,"steps":[{"command":"c $X"}]}`
+			case 1:
+				text = `{"steps":[{"command":"c $X","deep":` + nested + `}]}`
+			default:
+				text = `{"steps":[{"command":"c $X","plugins":[{"p#v1":{"cfg":` + nested + `}}]}]}`
+			}
+			w := &c04Walk{byField: map[string]int{}}
+			what, extra, _ := c04Run(text, c04Env(), 2, w)
+			c.Eval(1)
+			c.Feature("depth", depth/10, where, seq)
+			if what != "" {
+				m := map[string]any{"what": fmt.Sprintf("reference nested %d levels deep (%s, position %d): %s", depth, map[bool]string{true: "sequences", false: "mappings"}[seq], where, what), "document": clip(text, 2000)}
+				for k, v := range extra {
+					m[k] = v
+				}
+				c.Violation(run.CaseID("depth", i), m)
+				return
+			}
+			c.Count("deep_documents_checked", 1)
+			c.Count("strings_checked", w.strings)
+			c.Count("strings_changed_by_expansion", w.changed)
+		})
 	})
 	// Pipelines built in code rather than parsed: unknown fields hold the typed containers a program would use
 	// (map[string]string, []string, *ordered.Map[string,string], *string next to the untyped ones)
